@@ -120,7 +120,8 @@ def _compute(what, o, p, t0):
 def execute(job):
     from evo.core import sync, trajectory
     from evo.core.geometry import GeometryException
-    n, hist, built, t0 = job
+    n, hist, built, t0 = job[:4]
+    touch = job[4] if len(job) > 4 else "none"          # cache history: which views of the target are read before each mutating step
     objs = {1: _initial(built, t0)}
     extras = []
     ev = []
@@ -134,6 +135,12 @@ def execute(job):
         name = e["name"]
         tgt = objs.get(e["target"])
         created = []
+        if tgt is not None and touch != "none":
+            if touch in ("all", "check"):
+                tgt.check()
+            if touch in ("all", "views"):
+                _ = (tgt.positions_xyz, tgt.orientations_quat_wxyz, tgt.poses_se3)
+            before[e["target"]] = _snap(tgt)
         try:
             if name == "DeepCopy":
                 created = [copy.deepcopy(objs[args[0]])]
@@ -148,7 +155,7 @@ def execute(job):
                 a, b = sync.associate_trajectories(objs[args[0]], objs[args[1]], max_diff=0.5)
                 created = [a, b]
             elif name == "Merge":
-                created = [trajectory.merge([objs[args[0]], objs[args[1]]])]
+                created = [trajectory.merge([objs[a] for a in args])]
             elif name == "Transform":
                 tgt.transform(geom.se3(geom.o24_matrix((2, -1, 3)), [1.0, -2.0, 3.0]))
             elif name == "Scale":
@@ -233,7 +240,7 @@ def run(rep, tier, seed):
         hists = hists[:120000]
     import evo.tools.plot  # noqa: F401
     import evo.tools.pandas_bridge  # noqa: F401
-    jobs = [(n, h, "se3" if n % 3 else "pq", [0.0, 1.5e9][n % 2]) for n, h in enumerate(hists)]
+    jobs = [(n, h, "se3" if n % 3 else "pq", [0.0, 1.5e9][n % 2], ["none", "all", "check", "views"][(n // 6) % 4]) for n, h in enumerate(hists)]
     traces = core.pmap(execute, jobs, chunksize=50)
     traces += result_traces(seed)
     for t in traces:
